@@ -59,6 +59,16 @@ def host_with_block(label, blk):
     return ('stat', pi, kids)
 
 
+def shortif_else_stat():
+    """if ( a ) b = c else d = e   (line-scoped, with an else part)"""
+    pi = [i for i, (l, _) in enumerate(L.G['stat']) if l == 'shortif'][0]
+    syms = L.G['stat'][pi][1]
+    kids = [L.min_tree(x) for x in syms]
+    sl = L.min_tree('slstats')
+    kids[5] = ('slelse', 1, [L.T('else'), sl])
+    return ('stat', pi, kids)
+
+
 def block_of(stats, last=None):
     return L.wrap_stats(stats, last=last)[2][0]
 
@@ -94,6 +104,16 @@ def fam_nest():
                 st = L.default_stat('shortif')
                 yield L.wrap_stats([host_with_block(h1, block_of([host_with_block(h2, block_of(
                     [host_with_block(h3, block_of([st, L.default_stat('assign')]))]))]))])
+    # short-if with an else part (and a ? print) followed by more statements, inside every host and two deep
+    sie = shortif_else_stat()
+    for h1 in HOSTS:
+        yield L.wrap_stats([host_with_block(h1, block_of([sie, L.default_stat('assign')])), L.default_stat('callstat')])
+        yield L.wrap_stats([host_with_block(h1, block_of([L.default_stat('qprint'), L.default_stat('assign')])),
+                            L.default_stat('callstat')])
+        for h2 in HOSTS:
+            yield L.wrap_stats([host_with_block(h1, block_of([host_with_block(h2, block_of([sie, sie, L.default_stat('assign')])),
+                                                              L.default_stat('assign')]))])
+    yield L.wrap_stats([sie, L.default_stat('do'), sie, L.default_stat('assign')])
     # if / elseif / else chains hosting line-scoped statements
     ifp = [pi for pi, (l, _) in enumerate(L.G['stat']) if l == 'if'][0]
     for inner in ('shortif', 'qprint', 'assign', 'callstat'):
